@@ -294,6 +294,55 @@ NOT_APPLICABLE = {
 PENDING_REASON = "not claimed yet: static checker under construction (see DESIGN.md section 0 for the planned structural clauses)"
 
 
+
+# ---- clauses added after the seed waves (appended to the texts above; see DESIGN.md 9.3 / 9.4)
+_ADDED = {
+    "C01": "Added: the warm/cold-start routine (found by role) writes qacc and efc_force on every path (R-ITERATE-INIT).",
+    "C09": "Added: R-FRESH on the inverse pipeline (no stage reads a derived field whose producer is more conditional) and "
+           "R-ISLAND-COPY (a function that refreshes an island-ordered copy nothing inside it consumes refreshes it on every path "
+           "after each write to either side, nisland == 0 excepted).",
+    "C18": "Added: R-WAKE-PRUNE (no collision pair with an awake side is discarded by a sleep test; finite evaluation of the "
+           "pruning guards).",
+    "C20": "Added: R-CLEAR-COUNTS for every function that zeroes nefc (the counters ne/nf/nl and the contact efc_address values "
+           "are cleared with it).",
+    "C21": "Added: R-FREE-NULL (a freed model/data pointer member is nulled or overwritten before the next free of it on all "
+           "paths) and R-PUBLISH-INIT (an object is published to its owner only after every member its destructor reads is "
+           "initialised).",
+    "C22": "Added: R-SEMANTIC — abstract interpretation of the generated functions over every weak ordering of <= 4 (sort) / <= 5 "
+           "(partial sort, all k) abstract elements and of the merge region on every pair of sorted runs of length <= 3: stable "
+           "sorted output / k smallest in order / stable merge; shape-independent (fast paths, sift-down bounds, heap construction).",
+    "C25": "Added: R-FD-ORDER (the operand order of the forward / backward / centred difference branches is one acyclic 'comes "
+           "before' relation) and R-SKIPFACTOR (a factorisation is reused across perturbations only below the stage whose inputs "
+           "the not-reused code reads).",
+    "C28": "Added: the cutoff clamp is applied per sensor datatype exactly where the stored element is read back (R-CUTOFF "
+           "datatype clause).",
+    "C37": "Added: R-ATTR-BOUND (every ReadAttr destination extent admits the maximum length passed, before the size check) and "
+           "R-FORMAT (no run-time string reaches a printf-style format position of the error constructors).",
+    "C38": "Added: protected aliases — a pointer / iterator / reference into a guarded member is valid only inside the lock region "
+           "it was obtained in; uses after it and escapes by return / store are reported (one known finding: HasAsset).",
+    "C39": "Added: R-DERIVED (a member filled from table lookups and read back is a cache: every table mutator invalidates it) and "
+           "R-DELEXACT (delete erases under another key only where the exact name is known absent; 0 is returned exactly on "
+           "paths that erased an entry).",
+    "C42": "Added: R-MEMBER-SCAN (a scan of element members filtered to Attr handles Use / ranges over all declarations).",
+    "C43": "Added: R-XLANG-FEED (every data-flow feed between mirrored primitives in an MJX integrator has the same call order in "
+           "the C integrator; fields the C driver produces by a primitive depend on the mirrored primitive in MJX) and "
+           "R-XLANG-COVER (the ball-limit Jacobian axis depends on the quaternion's scalar part other than through the activity "
+           "gate, on both sides).",
+    "C47": "Added: R-APPLY (spec fields receive mass, first moment / mass, and the parallel-axis-corrected inertia in MuJoCo's "
+           "order; compiler.inertiafromgeom is left at a value under which the explicit inertial wins — derived from the C++ "
+           "compiler's own condition) and R-BOUNDS (bound rows ordered per slot group).",
+    "C50": "Added: R-CAPACITY (a decision on the scene capacity outside the slot producer has an arm that reports) and "
+           "R-INDEX-BOUND (interval analysis of every subscript of mjvOption's fixed-extent flag arrays: 113 sites inside "
+           "[0, extent-1], through clamp macros, helpers, early returns, loops and decayed passes).",
+    "C51": "Added: R-TABLE as abstract interpretation of activation-slot indices (linear forms over actadr/actnum for 64 option x "
+           "dyntype combinations; every state slot and the setpoint slot lie where the engine's own layout puts them) and "
+           "R-BOUNDS-AGREE (the two curvature operands of the cable have the same exact norm bound).",
+}
+for _pid, _txt in _ADDED.items():
+    _c = CLAIMS[_pid]
+    CLAIMS[_pid] = (_c[0], _c[1], _c[2] + " " + _txt, _c[3], _c[4])
+
+
 def build():
     props = [json.loads(l) for l in open(os.path.join(VERIF, "properties.jsonl"))]
     checks = []
